@@ -228,7 +228,7 @@ fn mutated() -> impl Strategy<Value = String> {
         2 => super::c02::pair().prop_map(|p| render_canonical(&super::c02::expr_of(&p))),
         2 => super::c18::exprs().prop_map(|es| es.iter().map(|e| render_canonical(e)).collect::<Vec<_>>().join(" ")),
     ];
-    (base, prop::collection::vec((0u8..6, any::<u16>(), soup_token()), 0..=2)).prop_map(|(b, muts)| {
+    (base, prop::collection::vec((0u8..9, any::<u16>(), soup_token()), 0..=2)).prop_map(|(b, muts)| {
         let mut toks: Vec<String> = b.split(' ').map(|t| t.to_string()).collect();
         for (kind, pos, tok) in muts {
             if toks.is_empty() {
@@ -250,6 +250,21 @@ fn mutated() -> impl Strategy<Value = String> {
                 }
                 3 => toks.insert(i, tok),
                 4 => toks[i] = tok,
+                6 | 7 | 8 => {
+                    // a multi-byte character (blank or not) glued directly behind a token — optionally after a
+                    // dangling operator, optionally cutting the rest off: an error located "one past" something
+                    // by byte arithmetic would end inside that character
+                    const MB: [&str; 10] = ["\u{a0}", "\u{3000}", "\u{2003}", "\u{2009}", "é", "µ", "²", "日", "🚀", "Ω"];
+                    const OPS: [&str; 8] = ["^", "**", "*", "/", "+", "-", "(", ","];
+                    let mb = MB[(pos as usize / 7) % MB.len()];
+                    if kind >= 7 {
+                        toks[i].push_str(OPS[(pos as usize / 3) % OPS.len()]);
+                    }
+                    toks[i].push_str(mb);
+                    if kind == 8 {
+                        toks.truncate(i + 1);
+                    }
+                }
                 _ => {
                     // glue with the next token
                     if i + 1 < toks.len() {
